@@ -97,32 +97,8 @@ impl CdpRunningValidator {
 //@EXTRACT check_tdh_trigger_interval
 }
 
-// ---------------------------------------------------------------- ItsReadoutFrameValidator::process_frame, E72/E73 statement group
-fn site_frame_lanes_error(is_ib: bool, err_chan: &mut Sender<StatType>, mem_pos_start: u64, mem_pos_end: u64)
-    ensures one_error_at(old(err_chan).log@, final(err_chan).log@, mem_pos_start) // [C07] reported at the start of the frame
-{
-//@EXTRACT frame_lanes_error
-}
-
-// ---------------------------------------------------------------- process_frame, E74/E75: the message is created by one
-// statement, lane messages are appended by a closure (not extracted: `for_each` over an owned Vec with a captured
-// `&mut String`; assumed to append only), then it is sent by another statement
-#[verifier::external_body]
-fn appended_lane_messages(m: &mut Msg) ensures final(m).sortable == old(m).sortable, final(m).at == old(m).at { unimplemented!() }
-fn site_lane_errors(err_chan: &mut Sender<StatType>, mem_pos_start: u64, mem_pos_end: u64)
-    ensures one_error_at(old(err_chan).log@, final(err_chan).log@, mem_pos_start) // [C07] reported at the start of the frame
-{
-//@EXTRACT lane_errors_create
-    appended_lane_messages(&mut error_string);
-//@EXTRACT lane_errors_send
-}
-
-// ---------------------------------------------------------------- report_empty_alpide_frame_error, final statements (E701)
-fn site_empty_frame_error(err_chan: &mut Sender<StatType>, mem_pos_start: u64, mem_pos_end: u64)
-    ensures one_error_at(old(err_chan).log@, final(err_chan).log@, mem_pos_start) // [C07] reported at the start of the frame
-{
-//@EXTRACT empty_frame_error
-}
+// (the three message sites of ItsReadoutFrameValidator::process_frame / report_empty_alpide_frame_error are checked on the whole
+// functions in unit v_process_frame)
 
 } // verus!
 impl core::fmt::Debug for SendErr { fn fmt(&self, _f: &mut core::fmt::Formatter<'_>) -> core::fmt::Result { Ok(()) } }
